@@ -22,15 +22,15 @@ func (r satResult) String() string { return [...]string{"unsat", "sat", "unknown
 
 // Solver is one persistent SMT solver process (z3 -in / cvc5 --incremental).
 type Solver struct {
-	bin      string
-	cmd      *exec.Cmd
-	in       io.WriteCloser
-	out      *bufio.Reader
-	declared map[string]bool
+	bin       string
+	cmd       *exec.Cmd
+	in        io.WriteCloser
+	out       *bufio.Reader
+	declared  map[string]bool
 	declLevel map[string]int
-	decls    []string // declaration text in order (for standalone scripts)
+	decls     []string // declaration text in order (for standalone scripts)
 
-	stack    []*Term // constraints currently asserted, one push level each
+	stack []*Term // constraints currently asserted, one push level each
 
 	Queries  int
 	NSat     int
